@@ -383,7 +383,7 @@ def run(ctx):
     proved = (not msgs) and prove(ctx, "C09")
     quick = ctx.tier == "quick"
     ncases, max_side, nsetup, ngauss = (84, 8, 9, 6) if quick else (350, 16, 36, 30)
-    obs = run_harness(ctx, binp, ["c09", ctx.seed, ncases, max_side, nsetup, ngauss, 36 if quick else 120])
+    obs = run_harness(ctx, binp, ["c09", ctx.seed, ncases, max_side, nsetup, ngauss, 36 if quick else 120, 18 if quick else 54])
     oracle(ctx, obs)
     for o in [x for x in obs if x["kind"] == "arr"][8:10]:
         ctx.sample({"family": o["family"], "cols": o["cols"], "rows": o["rows"], "taus": [fl(t) for t in o["taus"]], "rates": [fl(x) for x in o["singles"]]})
